@@ -8,25 +8,6 @@ const FIX: usize = PRE + 48;
 const BX: usize = FIX + KX;
 const PWX: usize = 4;
 
-/// Replacement for `Option::ok_or` in the harnesses whose iteration count is non-zero by construction (`#[kani::stub]`).
-/// `wrap_keys` starts with `NonZeroU32::new(prefix.params.iterations.get()).ok_or(InvalidKey)?`; the count is read back through
-/// zerocopy's byte-array-to-struct cast, which CBMC's constant propagation does not see through, so the (infeasible) zero branch
-/// is explored, returns before the three KDF model calls and merges with the other path at the end of `wrap_keys`: the memo
-/// table size is symbolic for the AES and HMAC calls that follow (README rule 3b; no verdict in 15 min). The replacement cuts
-/// the None branch (`assume(false)`) — a harness promise "ok_or is never reached with None", valid where the harness fixed a
-/// non-zero count; if it were ever violated on all paths, the "harness end reachable" cover fails (vacuity guard). The zero
-/// count itself is the obligation of `unwrap_zero_iterations_h`, which runs the real `ok_or`.
-pub fn ok_or_some<T, E>(o: Option<T>, err: E) -> Result<T, E> {
-    match o {
-        Some(v) => Ok(v),
-        None => {
-            core::mem::forget(err);
-            kani::assume(false);
-            panic!()
-        }
-    }
-}
-
 fn header(KL: usize) -> &'static str { if KL == 32 { ".local-pw." } else { ".secret-pw." } }
 fn other_header(KL: usize) -> &'static str { if KL == 32 { ".secret-pw." } else { ".local-pw." } }
 fn params(it: u32) -> Params { Params { iterations: big_endian::U32::new(it) } }
@@ -194,7 +175,6 @@ pub fn canary_inputs() {
 macro_rules! inst {
     ($($name:ident = $f:ident($($g:literal),*);)*) => { $(
         #[kani::proof] #[kani::unwind(200)]
-        #[kani::stub(core::option::Option::ok_or, ok_or_some)]
         pub fn $name() { $f($($g),*); kani::cover!(true, "harness end reachable"); }
     )* };
 }
